@@ -22,6 +22,7 @@ import (
 	"sort"
 	"strings"
 	gosync "sync"
+	"sync/atomic"
 	"time"
 )
 
@@ -56,10 +57,11 @@ const (
 	StPanic                  // a thread panicked (uncaught)
 	StHorizon                // step horizon exceeded
 	StInfra                  // replay divergence or shim misuse: never a property violation
+	StStalled                // the running thread did not reach a scheduling point within StallAfter (busy loop)
 )
 
 func (s Status) String() string {
-	return [...]string{"complete", "blocked", "panic", "horizon", "infra"}[s]
+	return [...]string{"complete", "blocked", "panic", "horizon", "infra", "stalled"}[s]
 }
 
 type opKind uint8
@@ -162,6 +164,8 @@ func (b BlockedThread) String() string {
 
 // Result is what one execution produced.
 type Result struct {
+	// StallStacks: all goroutine stacks at the moment the execution was given up as stalled
+	StallStacks string
 	// Unverified: the explorer re-ran this schedule and got another execution (recorded as an infrastructure error)
 	Unverified bool
 	Choices    []Choice
@@ -184,7 +188,8 @@ type Result struct {
 
 // Sched is the state of one execution.
 type Sched struct {
-	atomicVC VC // see AtomicFence
+	beat     atomic.Int64 // advanced at every step (read by the stall watchdog)
+	atomicVC VC           // see AtomicFence
 	threads  []*Thread
 	running  *Thread
 	prefix   []Choice
@@ -230,9 +235,42 @@ type RunOpts struct {
 	Races    bool
 }
 
+// StallAfter (0 = never): how long the running thread may go without reaching a scheduling point before the execution
+// is given up as stalled. Real time, generous: a step takes microseconds; the only way to spend this long between two
+// scheduling points is a loop that touches no synchronisation (or a machine that does not run the process at all).
+var StallAfter time.Duration
+
+var poisoned bool
+
+// waitFinished waits for the end of the execution; false = stalled.
+func (s *Sched) waitFinished() bool {
+	if StallAfter <= 0 {
+		<-s.finished
+		return true
+	}
+	last, since := int64(-1), time.Now()
+	tick := time.NewTicker(StallAfter / 8)
+	defer tick.Stop()
+	for {
+		select {
+		case <-s.finished:
+			return true
+		case <-tick.C:
+			if b := s.beat.Load(); b != last {
+				last, since = b, time.Now()
+			} else if time.Since(since) > StallAfter {
+				return false
+			}
+		}
+	}
+}
+
 // Run executes body as thread 0 under the scheduler, replaying prefix and taking
 // choice 0 afterwards.
 func Run(prefix []Choice, body func(), o RunOpts) *Result {
+	if poisoned {
+		return &Result{Status: StInfra, Infra: "an earlier execution in this process stalled and is still running"}
+	}
 	if cur != nil {
 		panic("mcrt: nested Run")
 	}
@@ -264,7 +302,24 @@ func Run(prefix []Choice, body func(), o RunOpts) *Result {
 		s.mainDone = true
 	})
 	t0.wake <- struct{}{}
-	<-s.finished
+	if !s.waitFinished() {
+		// The running thread has not reached a scheduling point for StallAfter: it is looping without touching any
+		// synchronisation. It cannot be stopped, so this process must not execute anything else.
+		buf := make([]byte, 1<<20)
+		n := runtime.Stack(buf, true)
+		poisoned = true
+		cur = nil
+		r := s.res
+		r.Status = StStalled
+		r.StallStacks = string(buf[:n])
+		r.Points = s.points
+		r.Choices = make([]Choice, len(s.points))
+		for i, p := range s.points {
+			r.Choices[i] = Choice{p.Chosen, p.N}
+		}
+		r.Steps = int(s.beat.Load())
+		return r
+	}
 	// Wait for every goroutine of this execution to leave before the next one starts.
 	waitCh := make(chan struct{})
 	go func() { s.realWG.Wait(); close(waitCh) }()
@@ -416,6 +471,7 @@ func (s *Sched) objID(o any) int {
 
 func (s *Sched) step(t *Thread, k opKind, obj any) {
 	s.steps++
+	s.beat.Add(1)
 	t.ops++
 	id := 0
 	if obj != nil {
